@@ -174,9 +174,8 @@ func Not(a *Term) *Term {
 	if a.Const {
 		return Bool(!a.B)
 	}
-	if strings.HasPrefix(a.S, "(not ") {
-		inner := a.S[5 : len(a.S)-1]
-		return &Term{K: KBool, S: inner, Syms: a.Syms}
+	if a.Op == "not" && len(a.Args) == 1 {
+		return a.Args[0]
 	}
 	return app(KBool, 0, "not", a)
 }
